@@ -383,6 +383,22 @@ def volume(width, height, depth=1):
     return area(width, height=height) * depth
 print(area(2), area(width=2, height=5), area(height=1, width=scale), volume(1, depth=2, height=3))
 ''',
+    # a class attribute computed from the module variable of the same name (the read in the class body sees the module's)
+    '''rate = 3
+def quote(count):
+    return count * rate
+class Plan:
+    rate = rate * 2
+    label = 'x%d' % rate
+print(quote(4), Plan.rate, Plan.label, rate)
+''',
+    # a parameter re-bound from its own value
+    '''def ext(path, sep):
+    path = path.strip()
+    parts = path.split(sep)
+    return parts
+print(ext(' a/b ', '/'))
+''',
     # instance attributes set in several methods, class attribute read through the class and the instance
     '''class Account:
     rate = 2
@@ -399,7 +415,7 @@ print(acct.deposit(5), acct.balance, acct.history, acct.rate, Account.rate)
 ]
 
 SHAPE_NAMES = ['union-receiver', 'override', 'function-alias', 'global-closure', 'decorated-kwargs', 'kwargs',
-               'instance-attrs']
+               'class-rebind', 'param-rebind', 'instance-attrs']
 assert len(SHAPE_NAMES) == len(SHAPES)
 
 
